@@ -403,14 +403,19 @@ def find_synsets(
         or_norm = 'OR normalized_form IN wordforms' if normalized else ''
         and_rank = '' if search_all_forms else 'AND rank = 0'
         and_lex = _and_form_lexicons(lexicon_rowids, 'f.')
+        # senses that unselected lexicon extensions add to the entry do
+        # not link the entry's forms to their synsets
+        and_sense_lex = _and_form_lexicons(lexicon_rowids, '_s.')
         join = f'''\
           JOIN (SELECT _s.entry_rowid, _s.synset_rowid, _s.entry_rank
                   FROM forms AS f
                   JOIN senses AS _s ON _s.entry_rowid = f.entry_rowid
-                 WHERE (f.form IN wordforms {or_norm}) {and_rank} {and_lex}) AS s
+                 WHERE (f.form IN wordforms {or_norm}) {and_rank} {and_lex}
+                       {and_sense_lex}) AS s
             ON s.synset_rowid = ss.rowid
         '''.strip()
         params.extend(forms)
+        params.extend(lexicon_rowids)
         params.extend(lexicon_rowids)
         order = 'ORDER BY s.entry_rowid, s.entry_rank'
     if pos:
